@@ -1268,6 +1268,10 @@ def C19(ctx):
         if rng.random() < 0.2:
             g = gen.rand_arc_subset(rng, k, 0.5)
         ins, dele = rng.randrange(2), rng.randrange(2)
+        if rng.random() < 0.12:
+            # only out-degrees 0/1 and both flags off: every score is 0 (the call raises after updating)
+            g = gen.Graph(k, [rng.choice([0, 1, 2, 4, 8]) for _ in range(4 ** k)])
+            ins = dele = 0
         acc = np.array(g.rows(), dtype=int)
         lm = {u: [succ(u, j, k) for j in g.live(u)] for u in g.vertices()}
         steps = 0
